@@ -61,6 +61,11 @@ CLAIMED = {
     design='5 C09',
     note='Trusted: real myokit model classes / SBML importer; the Simulation stub contract (result depends exactly on the state vector in solver order, the named constants, the protocol and the sensitivity request); z3. The integrator (sundials) is absent in this sandbox and outside the claim.',
     technique='symbolic execution over an uninterpreted-solver stub + term/SMT equality over enumerated generated SBML programs; expression-tree translation for library equations'),
+ 'C10': dict(
+    text='Bounded symbolic verification of dosing: set_dosing_regimen with symbolic dose/start/duration/period and every num hands the simulator the documented event (level*duration = dose); the model surgery of set_administration is decided on the myokit expression trees (dose rate on the dosed amount, first-order depot) for library and generated models; cumulative input between infusions = sum of scheduled doses under myokit event semantics; PredictiveModel.get_dosing_regimen on symbolic start, period, duration, level and final_time lists exactly the events applied up to final_time (floor forked, <= 4 doses).',
+    design='5 C10',
+    note='Trusted: real myokit model/expression classes, protocol stub = documented myokit.Protocol event semantics, z3. Outside: the integrator; dataset-derived regimens (pandas).',
+    technique='symbolic execution over the myokit stub with symbolic protocol fields + SMT decisions; expression-tree translation of the modified right-hand sides'),
 }
 
 NOT_APPLICABLE = {
